@@ -170,6 +170,10 @@ def onLabel (s : S) (tid point : String) (case : String) (evs : List String := [
     match chanOfThread s tid with
     | none => s.fail "readLoop by an unknown thread"
     | some conn =>
+      -- the loop is reached only after the handlers have returned from the active event
+      let s : S := match s.getC conn with
+        | some c => if c.st.pc == CPc.activating then s.cact conn .activeDone "active event over" else s
+        | none => s
       match s.getC conn with
       | none => s
       | some c =>
